@@ -215,7 +215,7 @@ class Scheduler:
         elif q[0] < p[0]:
             self.events.append({"t": t, "ev": "Shrink", "k": q[0], "size": 0})
         for k in q[1]:
-            if k not in p[1]:
+            if k not in p[1] and k < p[0]:       # (a level of a mesh class is born compacted: that is its AppendLevel, not a compaction)
                 self.events.append({"t": t, "ev": "CompactOne", "k": k, "size": 0})
         if len(p) > 3 and p[3] != q[3]:
             for (th, n0), (_, n1) in zip(p[3], q[3]):
